@@ -156,7 +156,7 @@ func loadRepo(dir string) (*loaded, error) {
 			return nil, fmt.Errorf("package %s not loaded", want)
 		}
 	}
-	prog, spkgs := ssautil.AllPackages(pkgs, ssa.GlobalDebug)
+	prog, spkgs := ssautil.AllPackages(pkgs, ssa.GlobalDebug|ssa.NaiveForm)
 	prog.Build()
 	l.Prog = prog
 	for i, p := range pkgs {
